@@ -290,6 +290,11 @@ pub struct Wsdl {
     pub service: String,
     pub port: String,
     pub address: String,
+    /// print the WSDL elements unprefixed under xmlns="<WSDL namespace>" on <definitions>, and the
+    /// inline schema under its own xmlns="<its target namespace>" with unprefixed references to
+    /// its own components (the default namespace changes on the way down)
+    #[serde(default)]
+    pub default_ns_style: bool,
 }
 
 #[derive(Clone, Debug, Serialize, Deserialize, PartialEq, Eq, Hash)]
@@ -559,6 +564,27 @@ pub fn print_xsd(f: &XsdFile) -> String {
 }
 
 pub fn print_wsdl(w: &Wsdl) -> String {
+    let text = print_wsdl_prefixed(w);
+    if !w.default_ns_style {
+        return text;
+    }
+    // same infoset, other spelling: WSDL elements in the default namespace, the inline schema under
+    // a default namespace of its own
+    let text = text.replace(&format!("xmlns:wsdl=\"{WSDL_NS}\""), &format!("xmlns=\"{WSDL_NS}\"")).replace("<wsdl:", "<").replace("</wsdl:", "</");
+    let (head, rest) = text.split_once("<xs:schema").expect("inline schema");
+    let (schema, tail) = rest.split_once("</xs:schema>").expect("inline schema end");
+    let own = format!("tns:");
+    let mut schema = schema.to_string();
+    if w.schema.tns == w.tns && w.schema.default_ns.is_none() {
+        for attr in ["type", "base", "ref"] {
+            schema = schema.replace(&format!(" {attr}=\"{own}"), &format!(" {attr}=\""));
+        }
+        schema = schema.replacen(" targetNamespace=", &format!(" xmlns=\"{}\" targetNamespace=", esc(&w.schema.tns)), 1);
+    }
+    format!("{head}<xs:schema{schema}</xs:schema>{tail}")
+}
+
+fn print_wsdl_prefixed(w: &Wsdl) -> String {
     let mut o = String::new();
     o.push_str("<?xml version=\"1.0\" encoding=\"UTF-8\"?>\n");
     let mut all_prefixes: Vec<(String, String)> = vec![("tns".into(), w.tns.clone())];
